@@ -14,8 +14,38 @@ use proptest::sample::select;
 
 pub struct C20;
 
+/// operand patterns: 0 dense (every digit non-zero), 1 every other digit zero, 2 one non-zero digit in three
+fn operand(pattern: u64, seed: u64, len: usize) -> Vec<u64> {
+    let mut v = gen::expand(6, seed, len); // every digit non-zero, high bit set
+    let step = match pattern % 3 { 0 => 1, 1 => 2, _ => 3 };
+    if step > 1 {
+        for (i, d) in v.iter_mut().enumerate() {
+            if i % step != step - 1 && i + 1 != len {
+                *d = 0;
+            }
+        }
+    }
+    v
+}
 fn dense(seed: u64, len: usize) -> Vec<u64> {
-    gen::expand(6, seed, len) // every digit non-zero, high bit set
+    operand(0, seed, len)
+}
+
+/// work of other multiplication forms on the same operands: `a *= &b` on an object whose buffer has spare
+/// capacity from an earlier, larger value, and the self-product `&a * &a` (same buffer on both sides)
+fn work_forms(a: &[u64], b: &[u64]) -> Result<(u64, u64), String> {
+    let (x, y) = (bu(a), bu(b));
+    // capacity-bearing history: a product, shifted back down, then assigned the value of x
+    let mut t = must_return("history", || { let mut t = &x * &y; t >>= 64 * y.to_u64_digits().len() as u64; t })?;
+    t.clone_from(&x);
+    let w0 = vp::get(Probe::MUL_MAC_ROW_WORK);
+    let t = must_return("a *= &b", || { t *= &y; t })?;
+    let w1 = vp::get(Probe::MUL_MAC_ROW_WORK);
+    product_oracle(a, b).check_u(&t).map_err(|e| format!("`a *= &b` on a capacity-bearing object gives a wrong product: {}", e))?;
+    let sq = must_return("&a * &a", || &x * &x)?;
+    let w2 = vp::get(Probe::MUL_MAC_ROW_WORK);
+    product_oracle(a, a).check_u(&sq).map_err(|e| format!("`&a * &a` gives a wrong product: {}", e))?;
+    Ok((w1 - w0, w2 - w1))
 }
 
 /// work of one product, and a correctness check of that product
@@ -28,9 +58,31 @@ fn work(a: &[u64], b: &[u64]) -> Result<u64, String> {
     Ok(w1 - w0)
 }
 
-fn balanced(n: usize, seed: u64) -> Verdict {
-    let w1 = work(&dense(seed, n), &dense(seed ^ 0x55, n))?;
-    let w2 = work(&dense(seed, 2 * n), &dense(seed ^ 0x55, 2 * n))?;
+fn balanced(n: usize, seed: u64, pattern: u64) -> Verdict {
+    // the doubling law is stated (and sound) for dense operands; operands with many zero digits must simply
+    // never cost more than dense operands of the same lengths (the row routine skips zero multiplier digits)
+    let (a1, b1) = (dense(seed, n), dense(seed ^ 0x55, n));
+    let (a2, b2) = (dense(seed, 2 * n), dense(seed ^ 0x55, 2 * n));
+    let w1 = work(&a1, &b1)?;
+    let w2 = work(&a2, &b2)?;
+    // the op-assign form on a capacity-bearing object and the self-product obey the same law
+    let (wa1, ws1) = work_forms(&a1, &b1)?;
+    let (wa2, ws2) = work_forms(&a2, &b2)?;
+    for (name, small, big) in [("`a *= &b` (object with spare capacity)", wa1, wa2), ("`&a * &a` (self-product)", ws1, ws2)] {
+        if small == 0 || 10 * big > 34 * small {
+            return Err(format!("{}: doubling the length {} -> {} multiplied the digit-multiplication count by {:.3} ({} -> {})", name, n, 2 * n, big as f64 / small.max(1) as f64, small, big));
+        }
+    }
+    if pattern % 3 != 0 {
+        let (pa, pb) = (operand(pattern, seed, 2 * n), operand(pattern / 3, seed ^ 0x55, 2 * n));
+        let wp = work(&pa, &pb)?;
+        let (wpa, wps) = work_forms(&pa, &pb)?;
+        for (name, w, dense_w) in [("`&a * &b`", wp, w2), ("`a *= &b`", wpa, wa2), ("`&a * &a`", wps, ws2)] {
+            if 4 * w > 5 * dense_w {
+                return Err(format!("{} on {}-digit operands with many zero digits used {} digit multiplications, more than 1.25x the {} used for dense operands of the same length", name, 2 * n, w, dense_w));
+            }
+        }
+    }
     let ratio = w2 as f64 / w1 as f64;
     if w1 == 0 || w2 == 0 {
         return Err("harness: work counter did not move (hooks not compiled in?)".into());
@@ -39,7 +91,7 @@ fn balanced(n: usize, seed: u64) -> Verdict {
     if 10 * w2 > 34 * w1 {
         return Err(format!("doubling the length {} -> {} multiplied the digit-multiplication count by {:.3} ({} -> {}); sub-quadratic algorithms give at most about 3", n, 2 * n, ratio, w1, w2));
     }
-    let mut info = Info::new(true).class("balanced_doubling");
+    let mut info = Info::new(true).class("balanced_doubling").class(match pattern % 3 { 0 => "dense_operand", 1 => "every_other_digit_zero", _ => "one_nonzero_digit_in_three" });
     if 2 * n == 4096 || n == 4096 {
         let w = if n == 4096 { w1 } else { w2 };
         if 4 * w >= 4096u64 * 4096 {
@@ -75,7 +127,7 @@ impl Property for C20 {
         "C20"
     }
     fn rule(&self) -> &'static str {
-        "Cases: balanced (n, operand seed) for n in {256, 320, 384, 512, 768, 1024, 1536, 2048} (quick; thorough adds 3072, 4096, 6144, 8192) with dense operands (every digit non-zero): W(2n)/W(n) <= 3.4 where W counts the digit multiplications of one product through the work-counter hook, and W(4096 x 4096) < 4096^2/4 whenever 4096 is one of the two sizes; unbalanced (n, m, seed) over the shapes n x (2n-1), n x 2n, n x 3n, n x 64n for n in {33, 64, 100, 256, 300, 512}: W <= n*m in both operand orders. Every product is also checked for correctness by modular fingerprints (and exactly when the shorter operand has <= 600 digits). Non-trivial: every case (all sizes are above the documented thresholds); distinct by (shape, seed)."
+        "Cases: balanced (n, operand seed) for n in {256, 320, 384, 512, 768, 1024, 1536, 2048} (quick; thorough adds 3072, 4096, 6144, 8192) with dense operands (every digit non-zero) W(2n)/W(n) <= 3.4 where W counts the digit multiplications of one product through the work-counter hook - for `&a * &b`, for `a *= &b` on an object whose buffer has spare capacity from an earlier larger value, and for the self-product `&a * &a`; in 40% of the cases operands with every other digit (or two digits in three) zero are added and must not cost more than 1.25x the dense operands of the same length in any of the three forms - and W(4096 x 4096) < 4096^2/4 whenever 4096 is one of the two sizes; unbalanced (n, m, seed) over the shapes n x (2n-1), n x 2n, n x 3n, n x 64n for n in {33, 64, 100, 256, 300, 512}: W <= n*m in both operand orders. Every product is also checked for correctness by modular fingerprints (and exactly when the shorter operand has <= 600 digits). Non-trivial: every case (all sizes are above the documented thresholds); distinct by (shape, seed)."
     }
     fn technique(&self) -> &'static str {
         "metamorphic property-based testing (proptest) on a deterministic work counter (no timing): cost ratios under length doubling and against the schoolbook count"
@@ -96,7 +148,7 @@ impl Property for C20 {
             v
         };
         prop_oneof![
-            50 => (select(sizes), any::<u64>()).prop_map(|(n, s)| Case::new("balanced", vec![Arg::U(n as u128), Arg::U(s as u128)])),
+            50 => (select(sizes), any::<u64>(), prop_oneof![60 => Just(0u64), 40 => 0u64..9]).prop_map(|(n, s, p)| Case::new("balanced", vec![Arg::U(n as u128), Arg::U(s as u128), Arg::U(p as u128)])),
             50 => (select(ub), any::<u64>()).prop_map(|((n, m), s)| Case::new("unbalanced", vec![Arg::U(n as u128), Arg::U(m as u128), Arg::U(s as u128)])),
         ]
         .boxed()
@@ -108,7 +160,7 @@ impl Property for C20 {
                 if !(256..=16384).contains(&n) {
                     return Err("harness: size outside the generated domain".into());
                 }
-                balanced(n, c.u(1) as u64)
+                balanced(n, c.u(1) as u64, if c.args.len() > 2 { c.u(2) as u64 } else { 0 })
             }
             "unbalanced" => {
                 let (n, m) = (c.u(0) as usize, c.u(1) as usize);
